@@ -74,6 +74,9 @@ class Harness:
             except Exception:
                 # a name the file imports from a side-effect-free standard-library module (itertools, math, operator, ..):
                 # the real object, which works on concrete values and raises on symbolic ones (-> that path is undecided)
+                const = X.module_constant(relpath, name)
+                if const is not NotImplemented:
+                    return const            # a module-level literal constant
                 imp = X.module_imports(relpath).get(name)
                 if imp and imp[0].split('.')[0] in _SAFE_STDLIB:
                     import importlib
@@ -124,8 +127,11 @@ class Harness:
 
         def call(*a, **k):
             from .rec import Rec
-            if a and isinstance(a[0], Rec) and getattr(a[0], 'method_resolver', None) is None:
-                a[0].method_resolver = resolver
+            if a and (isinstance(a[0], Rec) or hasattr(a[0], 'kvc_getattr')) and getattr(a[0], 'method_resolver', None) is None:
+                try:
+                    a[0].method_resolver = resolver
+                except Exception:
+                    pass
             return clo(*a, **k)
         return call
 
